@@ -129,6 +129,15 @@ PLAN = {
         "trusted_base": BASE_TRUST,
         "assumptions": BASE_ASSUME + ["what opening over a torn tail does is predicted by the driver from the tar-reader contract (Model/Cut.lean); writes after a torn, unaligned tail are outside the model (finding F19)"],
     },
+    "C17": {
+        "streams": {
+            "quick": [fs(96, 18, "C17", mode="foreign", rs="20,3,1")],
+            "thorough": [fs(3000, 24, "C17", mode="foreign", rs="20,1,2,3,7,64", timeout=7000)],
+        },
+        "generated": ["Stfs/Gen/Consts.lean (IsRoot spellings, suffix tables, STFS record keys)", "Stfs/Gen/PosArith.lean"],
+        "trusted_base": BASE_TRUST,
+        "assumptions": BASE_ASSUME + ["the foreign archive's items are handed to the model as read by the harness's own archive/tar reader (header fields, header blocks, stored size); afero.BasePathFs (the base-path view of the documented composition) is library code used as is by the oracle"],
+    },
     "C10": {
         "streams": {
             "quick": [{"stream": "fault", "args": ["-n", "32", "-len", "8", "-workers", "16", "-watchdog", "4", "-rs", "20,3"], "timeout": 1500},
